@@ -1,6 +1,6 @@
 // C13 correspondence harness: Thread start/join, parallel_for, ThreadGroup, parallel_invoke, Semaphore, Condition.
 //   pfrow <i0> <nth> <lo> <hi>        parallel_for(i0, i1, f, nth) for every i1 in [lo,hi]: which indices ran, how often, grouped by thread
-//   thr <kind> <n> <reps>              kind: sub lam grp inv cpy cpd  -> ran counts and finished() after join, worst over reps
+//   thr <kind> <n> <reps>              kind: sub lam grp inv cpy cpd cpj  -> ran counts and finished() after join, worst over reps
 //   sem <ops>                          p = post, w = trywait  (single thread)  -> successes and final value
 //   semc <prod> <cons> <k>             concurrent posts and blocking waits, all must return
 //   cond <waiters> <reps>              documented condition-variable protocol, every waiter must return
@@ -93,6 +93,17 @@ static std::string thrOnce(const std::string& kind, int n)
 		for (int i = 0; i < n; i++) { Thread* o = new Thread([r, i]() { usleep(2000 + 700 * i); __sync_add_and_fetch(r + i, 1); }); cs.push_back(new Thread(*o)); delete o; jitter(); }
 		for (int i = 0; i < n; i++) { cs[i]->join(); fin[i] = cs[i]->finished() ? 1 : 0; }
 		for (int i = 0; i < n; i++) delete cs[i];
+	}
+	else if (kind == "cpj") {
+		// copies made AFTER join (by construction, by assignment, into an Array): finished() must be true through every copy
+		for (int i = 0; i < n; i++) {
+			Thread a([r, i]() { __sync_add_and_fetch(r + i, 1); });
+			a.join();
+			Thread b(a);
+			Thread c; c = b;
+			Array<Thread> v; v << c;
+			fin[i] = (b.finished() && c.finished() && v[0].finished() && a.finished()) ? 1 : 0;
+		}
 	}
 	else if (kind == "grp") {
 		ThreadGroup<SubThread> g;
